@@ -310,7 +310,7 @@ harness!(td_insert_step_c2b1, unwind 5, { insert_step(2, 1) });
 harness!(td_insert_step_c1b2, unwind 5, { insert_step(1, 2) });
 
 /// Merge step (triggered by a read): totals preserved, output sorted, min/max kept.
-fn merge_step(nc: usize, nb: usize, delta: f64) {
+fn merge_step(nc: usize, nb: usize, delta: f64) -> (usize, usize) {
     let p = arb_parts(nc, false);
     let mut d = {
         let mut cs: Vec<(f64, f64)> = Vec::with_capacity(3);
@@ -343,17 +343,26 @@ fn merge_step(nc: usize, nb: usize, delta: f64) {
         chk!("merge_output_positive_weight", cc > 0.0);
         prev = mean;
     }
-    // delta = 1.1 fuses everything, delta = 1000 nothing: each configuration must reach its own case
-    if delta < 2.0 {
-        cov!("fused", oc < n_in);
-    } else {
-        cov!("not_fused", oc == n_in);
-    }
+    (oc, n_in)
 }
-harness!(td_merge_step_c1b1_fuse, unwind 5, { merge_step(1, 1, 1.1) });
-harness!(td_merge_step_c1b1_keep, unwind 5, { merge_step(1, 1, 1000.0) });
-harness!(td_merge_step_c2b1_keep, unwind 6, { merge_step(2, 1, 1000.0) });
-harness!(td_merge_step_c1b2_fuse, unwind 6, { merge_step(1, 2, 1.1) });
+// delta = 1.1 fuses everything, delta = 1000 nothing: each configuration must reach its own case (a witness placed in the
+// shared body would be unreachable code in the other configuration)
+harness!(td_merge_step_c1b1_fuse, unwind 5, {
+    let (oc, n_in) = merge_step(1, 1, 1.1);
+    cov!("fused", oc < n_in);
+});
+harness!(td_merge_step_c1b1_keep, unwind 5, {
+    let (oc, n_in) = merge_step(1, 1, 1000.0);
+    cov!("not_fused", oc == n_in);
+});
+harness!(td_merge_step_c2b1_keep, unwind 6, {
+    let (oc, n_in) = merge_step(2, 1, 1000.0);
+    cov!("not_fused", oc == n_in);
+});
+harness!(td_merge_step_c1b2_fuse, unwind 6, {
+    let (oc, n_in) = merge_step(1, 2, 1.1);
+    cov!("fused", oc < n_in);
+});
 
 /// Backlog size 0: every insert merges at once.
 harness!(td_insert_merges_backlog0, unwind 5, {
